@@ -38,10 +38,15 @@ pub fn fp(v: &dyn ValueView) -> J {
     let ordered = !has_multi_key_object(v);
     let mut keys: Vec<String> = v.as_object().map(|o| o.keys().map(|k| k.as_str().to_owned()).collect()).unwrap_or_default();
     keys.sort();
+    let eq_states: Vec<[bool; 2]> = [State::Truthy, State::DefaultValue, State::Empty, State::Blank].iter().map(|st| {
+        let lit = Value::State(*st);
+        [liquid::model::ValueViewCmp::new(v) == liquid::model::ValueViewCmp::new(&lit), liquid::model::ValueViewCmp::new(&lit) == liquid::model::ValueViewCmp::new(v)]
+    }).collect();
     json!({
         "type": v.type_name(),
         "truthy": v.query_state(State::Truthy), "default": v.query_state(State::DefaultValue),
         "empty": v.query_state(State::Empty), "blank": v.query_state(State::Blank),
+        "eq_states": eq_states,
         "render": if ordered { json!(v.render().to_string()) } else { J::Null },
         "source": if ordered { json!(v.source().to_string()) } else { J::Null },
         "kstr": if ordered { json!(v.to_kstr().as_str()) } else { J::Null },
@@ -198,6 +203,58 @@ pub fn derive(req: &J) -> J {
         "serde_to_value": res(liquid::model::to_value(&o), |x| fp(x)),
         "back_equal": match back { Some(Ok(b)) => json!(b == o || (b.float.is_nan() && o.float.is_nan())), Some(Err(e)) => json!({"error": e.to_string()}), None => J::Null },
     })
+}
+
+// ---- a second struct family: shapes whose fields can all be nil / false / blank / empty at once ----
+#[derive(liquid::ObjectView, liquid::ValueView, serde::Serialize, serde::Deserialize, Debug, Clone, PartialEq)]
+struct Leaf {
+    label: String,
+}
+#[derive(liquid::ObjectView, liquid::ValueView, serde::Serialize, serde::Deserialize, Debug, Clone, PartialEq)]
+struct Blankish {
+    text: String,
+    flag: bool,
+    opt: Option<String>,
+    list: Vec<String>,
+    nest: Option<Leaf>,
+    leaf: Leaf,
+}
+#[derive(liquid::ObjectView, liquid::ValueView, serde::Serialize, serde::Deserialize, Debug, Clone, PartialEq)]
+struct Single {
+    v: Option<i64>,
+}
+#[derive(liquid::ObjectView, liquid::ValueView, serde::Serialize, serde::Deserialize, Debug, Clone, PartialEq)]
+struct Unit {}
+
+fn struct_views<T: ValueView + ObjectView + serde::Serialize>(o: &T) -> J {
+    json!({
+        "derive": fp(o),
+        "derive_ref": fp(&o),
+        "option_some": fp(&Some(o)),
+        "cow_borrowed": fp(&ValueCow::Borrowed(o)),
+        "cow_into_owned": fp(&ValueCow::Borrowed(o).into_owned()),
+        "derive_to_value": fp(&o.to_value()),
+        "serde_object": res(liquid::model::to_object(o), |x| fp(x)),
+        "serde_to_value": res(liquid::model::to_value(o), |x| fp(x)),
+    })
+}
+
+pub fn derive2(req: &J) -> J {
+    let d = &req["d"];
+    let st = |k: &str| d[k].as_str().unwrap_or("").to_owned();
+    match req["shape"].as_str().unwrap_or("") {
+        "blankish" => struct_views(&Blankish {
+            text: st("text"),
+            flag: d["flag"].as_bool().unwrap_or(false),
+            opt: d["opt"].as_str().map(|s| s.to_owned()),
+            list: d["list"].as_array().map(|a| a.iter().map(|x| x.as_str().unwrap().to_owned()).collect()).unwrap_or_default(),
+            nest: d["nest"].as_str().map(|s| Leaf { label: s.to_owned() }),
+            leaf: Leaf { label: st("leaf") },
+        }),
+        "single" => struct_views(&Single { v: d["v"].as_str().map(|s| s.parse().unwrap()) }),
+        "leaf" => struct_views(&Leaf { label: st("label") }),
+        _ => struct_views(&Unit {}),
+    }
 }
 
 // ---- integers across the i64 / u64 boundaries ----
